@@ -97,6 +97,21 @@ func parsePacket(packet []byte) (header packetHeader, data []RawType) {
 	return header, data
 }
 
+// parsePacketChecked is parsePacket for data straight off the network: a datagram that is not a valid
+// ROACH packet yields an error instead of a panic.
+func parsePacketChecked(packet []byte) (header packetHeader, data []RawType, err error) {
+	defer func() {
+		if r := recover(); r != nil {
+			err = fmt.Errorf("not a valid ROACH packet: %v", r)
+		}
+	}()
+	header, data = parsePacket(packet)
+	if header.Nchan == 0 || header.Nsamp == 0 {
+		err = fmt.Errorf("not a valid ROACH packet: %d channels, %d samples", header.Nchan, header.Nsamp)
+	}
+	return header, data, err
+}
+
 // samplePacket reads a UDP packet and parses it
 func (dev *RoachDevice) samplePacket() error {
 	p := make([]byte, 16384)
@@ -108,7 +123,10 @@ func (dev *RoachDevice) samplePacket() error {
 	if err != nil {
 		return err // e.g. a timeout because the ROACH is not sending: there is no packet to parse
 	}
-	header, _ := parsePacket(p)
+	header, _, err := parsePacketChecked(p)
+	if err != nil {
+		return err
+	}
 	dev.nextS = FrameIndex(header.Nsamp) + FrameIndex(header.Sampnum)
 	dev.nchan = int(header.Nchan)
 	dev.unwrap = make([]*PhaseUnwrapper, dev.nchan)
@@ -196,6 +214,18 @@ func (dev *RoachDevice) readPackets(nextBlock chan *dataBlock) {
 		allData := make([][]RawType, 0, len(savedPackets))
 		nsamp := make([]int, 0, len(savedPackets))
 		var firstFrameIndex FrameIndex
+		good := savedPackets[:0]
+		for _, p := range savedPackets {
+			if _, _, perr := parsePacketChecked(p); perr != nil {
+				fmt.Printf("Ignoring a UDP datagram: %v\n", perr) // stray or corrupt datagram: drop it, keep the source alive
+				continue
+			}
+			good = append(good, p)
+		}
+		savedPackets = good
+		if len(savedPackets) == 0 {
+			continue
+		}
 		for i, p := range savedPackets {
 			header, data := parsePacket(p)
 			if dev.nchan != int(header.Nchan) {
